@@ -30,3 +30,34 @@ From Wire Require Import Theory.DispatchFacts.
 Theorem C15_reader_has_the_modelled_shape : ob_reader_shapes = true /\ ob_dispatch_arms = true.
 Proof. vm_compute. split; reflexivity. Qed.
 Print Assumptions C15_reader_has_the_modelled_shape.
+
+(* from the input text to the entries: a text of segments (each starts with a marker and holds no further brace
+   and no line break; its content may be malformed in any other way) separated by any runs of line breaks,
+   after any leading text that holds no brace: when some segment fails, the reader's result is exactly the failing segments' entries, each with the segment's
+   1-based position in the input, in input order - no entry for a healthy segment; when none fails, the result
+   is the verdict of file validation on the assembled message *)
+From Wire Require Import Model.Message Theory.ScanSpec Theory.Segments Theory.SegmentsGen.
+
+Theorem C15_entries_sit_at_the_segments_positions : forall preset opts lead pairs chunks,
+  no_brace lead = true -> forallb pair_ok pairs = true -> length (lead ++ text2 pairs) < max_token ->
+  concat chunks = lead ++ text2 pairs ->
+  errors_of (map fst pairs) 0 <> [] ->
+  read_model preset opts chunks FEOF = RErrors (errors_of (map fst pairs) 0).
+Proof. exact errors_at_segment_positions. Qed.
+Print Assumptions C15_entries_sit_at_the_segments_positions.
+
+Theorem C15_healthy_segments_then_file_validation : forall preset opts lead pairs chunks,
+  no_brace lead = true -> forallb pair_ok pairs = true -> length (lead ++ text2 pairs) < max_token ->
+  concat chunks = lead ++ text2 pairs ->
+  errors_of (map fst pairs) 0 = [] ->
+  exists m, (read_model preset opts chunks FEOF = ROk m /\ verify m = Accept) \/
+            (exists f e, read_model preset opts chunks FEOF = RErrors [RFileValidation f e] /\ verify m = Reject f e) \/
+            read_model preset opts chunks FEOF = RErrors [RPanic] \/ read_model preset opts chunks FEOF = RErrors [RStuck].
+Proof. exact no_segment_error_means_file_validation. Qed.
+Print Assumptions C15_healthy_segments_then_file_validation.
+
+(* not vacuous: the second of two segments is malformed (a {1510} of the wrong length), the first is healthy:
+   one entry, at position 2 *)
+Example second_segment_reported_at_two :
+  errors_of [bs "{1520}20190410Source08000001"; bs "{1510}10"] 0 = [RParse 2 "TypeSubType" "" "TagWrongLengthErr"].
+Proof. vm_compute. reflexivity. Qed.
